@@ -103,6 +103,32 @@ example :
   refine ⟨?_, by unfold NoDupTypeNames; decide, by unfold NoDupDirectiveNames; decide, by decide⟩
   exact (List.Perm.swap _ _ _).trans ((List.Perm.cons _ (List.Perm.swap _ _ _)).trans (List.Perm.swap _ _ _))
 
+/-- **… and WITH re-declared built-in directives the verdict is the same for every permutation that keeps, for each
+    directive name, the relative order of its definitions** (`KeepsDirectiveOrder`; any movement of type and schema
+    definitions, of directive definitions of different names, across each other). This is what reordering source
+    text does to a schema that re-declares `@deprecated`: the CLI appends the built-ins after all user files and the
+    extension resolver emits directive definitions in that order, so the user's definition stays in front. Only
+    hypothesis besides: the built-in-position TYPE definitions are pairwise distinct. (Two USER definitions of one
+    directive swapped are covered by `C17_checkTs_verdict`: rejected in both orders.) -/
+theorem C17_checkTs_verdict_keepsDirectiveOrder {T T' : TsDoc} (h : T.Perm T') (hk : KeepsDirectiveOrder T T')
+    (hb : ValidTs.builtinTypeNamesDistinct T = true) :
+    CheckTs.checkSchema T = [] ↔ CheckTs.checkSchema T' = [] :=
+  ⟨checkSchema_nil_keeps h hk hb, checkSchema_nil_keeps h.symm hk.symm (builtinTypeNamesDistinct_perm h hb)⟩
+
+/-- the hypotheses hold of the re-declaration witness above with its other definitions moved around (accepted) -/
+example :
+    let u : TsItem := .directiveDef { name := "deprecated", namePos := { line := 1 }, locations := ["OBJECT"] }
+    let b : TsItem := .directiveDef { name := "deprecated", namePos := { builtin := true }, locations := ["FIELD_DEFINITION"] }
+    let q : TsItem := .typeDef { kind := .object, name := "Q", dirs := [{ name := "deprecated" }] }
+    let i : TsItem := .typeDef { kind := .scalar, name := "Int", namePos := { builtin := true } }
+    let T : TsDoc := [u, b, q, i]
+    let T' : TsDoc := [q, u, i, b]
+    T.Perm T' ∧ KeepsDirectiveOrder T T' ∧ ValidTs.builtinTypeNamesDistinct T = true ∧ ¬ BuiltinsApart T ∧
+      CheckTs.checkSchema T = [] := by
+  refine ⟨?_, fun _ => rfl, by decide, by decide, by decide⟩
+  exact ((List.Perm.cons _ (List.Perm.swap _ _ _)).trans (List.Perm.swap _ _ _)).trans
+    (List.Perm.cons _ (List.Perm.cons _ (List.Perm.swap _ _ _)))
+
 /-- **Pre-repair witness (directives), the defect fix 8cdbacf repairs.** `resolve_schema_extensions` lets two
     definitions of the same directive through (`dupOriginal? = none`); the `Schema` the checker consults keeps the
     FIRST one, so for the per-definition rules ALONE (`checkSchemaItems` = all that `check_type_system_document` did
